@@ -33,28 +33,55 @@ theorem writeCell_self (t : PTable) (c : CellRef) (v : Option Nat) : (t.writeCel
 
 /-! ### HashMap.hpp -/
 
-theorem gen_map_find_loop (h : Nat → Nat) (t : PTable) (k hc : Nat) (fuel : Nat) (v : Option Nat) :
-    HashLink.HashMap.find_loop1 h fuel t k hc v = (PTable.walk t.items k fuel v).map (findResult t) := by
-  induction fuel generalizing v with
-  | zero => cases v <;> simp [HashLink.HashMap.find_loop1, PTable.walk, iterOf, findResult]
-  | succ f ih =>
-    cases v with
-    | none => simp [HashLink.HashMap.find_loop1, PTable.walk, iterOf, findResult]
-    | some a =>
-      unfold HashLink.HashMap.find_loop1
-      simp only [PTable.walk]
-      by_cases hk : (t.items a).key = k
-      · simp [hk, iterOf, findResult]
-      · simp only [hk, if_false]; exact ih _
-
 /-- The translated `HashMap::find(key)` is the model's `find` (the walk along `nextCell` from the bucket head), for EVERY
     table, key and hash function: the iterator of the item, `end()` if there is none; out of fuel iff the model is. -/
 theorem gen_map_find (h : Nat → Nat) (t : PTable) (k : Nat) :
     HashLink.HashMap.find h t k = (t.find h k).map (findResult t) := by
-  unfold HashLink.HashMap.find PTable.find
-  by_cases ha : t.allocated = true
-  · simp only [ha, if_true]; exact gen_map_find_loop h t k _ _ _
-  · simp [ha, iterOf, findResult]
+  first
+  | -- the walk written in `find` itself
+    have hl : ∀ (fuel hc : Nat) (v : Option Nat),
+        HashLink.HashMap.find_loop1 h fuel t k hc v = (PTable.walk t.items k fuel v).map (findResult t) := by
+      intro fuel hc v
+      induction fuel generalizing v with
+      | zero => cases v <;> simp [HashLink.HashMap.find_loop1, PTable.walk, iterOf, findResult]
+      | succ f ih =>
+        cases v with
+        | none => simp [HashLink.HashMap.find_loop1, PTable.walk, iterOf, findResult]
+        | some a =>
+          unfold HashLink.HashMap.find_loop1
+          simp only [PTable.walk]
+          by_cases hk : (t.items a).key = k
+          · simp [hk, iterOf, findResult]
+          · simp only [hk, if_false]; exact ih _
+    unfold HashLink.HashMap.find PTable.find
+    by_cases ha : t.allocated = true
+    · simp only [ha, if_true]; exact hl _ _ _
+    · simp [ha, iterOf, findResult]
+  | -- the walk in a helper `findInChain(item, key)` that returns the item or null (harmless change C02-h4)
+    have hl : ∀ v : Option Nat,
+        HashLink.HashMap.findInChain h t v k = (PTable.walk t.items k t.size v).map (fun r => (t, r)) := by
+      have hl1 : ∀ (fuel : Nat) (v : Option Nat),
+          HashLink.HashMap.findInChain_loop1 h fuel t v k = (PTable.walk t.items k fuel v).map (fun r => (t, r)) := by
+        intro fuel v
+        induction fuel generalizing v with
+        | zero => cases v <;> simp [HashLink.HashMap.findInChain_loop1, PTable.walk]
+        | succ f ih =>
+          cases v with
+          | none => simp [HashLink.HashMap.findInChain_loop1, PTable.walk]
+          | some a =>
+            unfold HashLink.HashMap.findInChain_loop1
+            simp only [PTable.walk]
+            by_cases hk : (t.items a).key = k
+            · simp [hk]
+            · simp only [hk, if_false]; exact ih _
+      intro v; unfold HashLink.HashMap.findInChain; exact hl1 _ _
+    unfold HashLink.HashMap.find PTable.find
+    by_cases ha : t.allocated = true
+    · simp only [ha, if_true, hl]
+      cases PTable.walk t.items k t.size (t.heads (h k % t.cap)) with
+      | none => rfl
+      | some r => cases r <;> rfl
+    · simp [ha, iterOf, findResult]
 
 /-- The translated `HashMap::remove(const Iterator&)` is the model's `removeItem` (unlink from the bucket chain through the
     `cell` back-pointer, unlink from the order list, push on the free list, return `item->next`) on every table in which the
@@ -117,69 +144,6 @@ theorem gen_map_removeBack {h : Nat → Nat} {pt : PTable} {t : Table} (hr : Rel
       exact List.mem_of_getLast? this.symm
     simp [gen_map_removeIt_rel hr hi x hm]
 
-/-- The second half of the translated `HashMap::insert` (construction, push to the front of the bucket chain, link before
-    `position`) is the model's `linkChain` followed by `linkOrder` on every table in which the fresh item is neither the item
-    `position` designates, nor its predecessor, nor the head of the bucket.  Proved by evaluating every read through the
-    stores before it and comparing the two heaps pointwise, so the order of independent stores in the body does not matter
-    (harmless change C02-h1: order list first, chain second). -/
-theorem gen_map_insert_link (h : Nat → Nat) (t : PTable) (pos : Nxt) (k v : Nat) (it : Nxt) (item : Nat)
-    (H1 : pos ≠ .item item) (H2 : t.prevOf pos ≠ some item) (H3 : t.heads (h k % t.cap) ≠ some item) :
-    HashLink.HashMap.insert_k1 h t pos k v it item =
-      some ((t.linkChain Kind.map item (h k % t.cap) k v).linkOrder item pos, .item item) := by
-  unfold HashLink.HashMap.insert_k1 PTable.linkChain PTable.linkOrder
-  rcases hh : t.heads (h k % t.cap) with _ | n <;> rcases pos with j | o
-  case none.item =>
-    have hj : j ≠ item := fun e => H1 (by rw [e])
-    rcases hq : (t.items j).prev with _ | q
-    · simp [PTable.constructAt, PTable.setCell, PTable.setNextCell, PTable.readCell, PTable.writeCell, PTable.setPrev, PTable.setNext,
-          PTable.prevOf, PTable.setPrevOf, upd_same, upd_upd, Table.storedValue, hh, hq, upd_ne _ _ _ _ hj]
-      try (funext x; by_cases e_xj : x = j <;> by_cases e_xi : x = item <;> simp_all [upd])
-    · have hqi : q ≠ item := fun e => H2 (by simp [PTable.prevOf, hq, e])
-      simp [PTable.constructAt, PTable.setCell, PTable.setNextCell, PTable.readCell, PTable.writeCell, PTable.setPrev, PTable.setNext,
-          PTable.prevOf, PTable.setPrevOf, upd_same, upd_upd, Table.storedValue, hh, hq, upd_ne _ _ _ _ hj, upd_ne _ _ _ _ hqi]
-      try (funext x; by_cases e_jq : j = q <;> by_cases e_xj : x = j <;> by_cases e_xq : x = q <;> by_cases e_xi : x = item <;> simp_all [upd])
-  case none.stl =>
-    rcases hq : t.endPrev with _ | q
-    · simp [PTable.constructAt, PTable.setCell, PTable.setNextCell, PTable.readCell, PTable.writeCell, PTable.setPrev, PTable.setNext,
-          PTable.prevOf, PTable.setPrevOf, upd_same, upd_upd, Table.storedValue, hh, hq, upd_same]
-      try (funext x; by_cases e_xi : x = item <;> simp_all [upd])
-    · have hqi : q ≠ item := fun e => H2 (by simp [PTable.prevOf, hq, e])
-      simp [PTable.constructAt, PTable.setCell, PTable.setNextCell, PTable.readCell, PTable.writeCell, PTable.setPrev, PTable.setNext,
-          PTable.prevOf, PTable.setPrevOf, upd_same, upd_upd, Table.storedValue, hh, hq, upd_ne _ _ _ _ hqi]
-      try (funext x; by_cases e_xq : x = q <;> by_cases e_xi : x = item <;> simp_all [upd])
-  case some.item =>
-    have hni : n ≠ item := fun e => H3 (by rw [hh, e])
-    have hj : j ≠ item := fun e => H1 (by rw [e])
-    by_cases hjn : j = n
-    · subst hjn
-      rcases hq : (t.items j).prev with _ | q
-      · simp [PTable.constructAt, PTable.setCell, PTable.setNextCell, PTable.readCell, PTable.writeCell, PTable.setPrev, PTable.setNext,
-            PTable.prevOf, PTable.setPrevOf, upd_same, upd_upd, Table.storedValue, hh, hq, upd_ne _ _ _ _ hj, upd_ne _ _ _ _ hni]
-        try (funext x; by_cases e_xj : x = j <;> by_cases e_xi : x = item <;> simp_all [upd])
-      · have hqi : q ≠ item := fun e => H2 (by simp [PTable.prevOf, hq, e])
-        simp [PTable.constructAt, PTable.setCell, PTable.setNextCell, PTable.readCell, PTable.writeCell, PTable.setPrev, PTable.setNext,
-            PTable.prevOf, PTable.setPrevOf, upd_same, upd_upd, Table.storedValue, hh, hq, upd_ne _ _ _ _ hj, upd_ne _ _ _ _ hqi, upd_ne _ _ _ _ hni]
-        try (funext x; by_cases e_jq : j = q <;> by_cases e_xj : x = j <;> by_cases e_xq : x = q <;> by_cases e_xi : x = item <;> simp_all [upd])
-    · have hjn' : j ≠ n := hjn
-      rcases hq : (t.items j).prev with _ | q
-      · simp [PTable.constructAt, PTable.setCell, PTable.setNextCell, PTable.readCell, PTable.writeCell, PTable.setPrev, PTable.setNext,
-            PTable.prevOf, PTable.setPrevOf, upd_same, upd_upd, Table.storedValue, hh, hq, upd_ne _ _ _ _ hj, upd_ne _ _ _ _ hjn', upd_ne _ _ _ _ hni]
-        try (funext x; by_cases e_jn : j = n <;> by_cases e_xj : x = j <;> by_cases e_xn : x = n <;> by_cases e_xi : x = item <;> simp_all [upd])
-      · have hqi : q ≠ item := fun e => H2 (by simp [PTable.prevOf, hq, e])
-        simp [PTable.constructAt, PTable.setCell, PTable.setNextCell, PTable.readCell, PTable.writeCell, PTable.setPrev, PTable.setNext,
-            PTable.prevOf, PTable.setPrevOf, upd_same, upd_upd, Table.storedValue, hh, hq, upd_ne _ _ _ _ hj, upd_ne _ _ _ _ hjn', upd_ne _ _ _ _ hqi, upd_ne _ _ _ _ hni]
-        try (funext x; by_cases e_jq : j = q <;> by_cases e_jn : j = n <;> by_cases e_qn : q = n <;> by_cases e_xj : x = j <;> by_cases e_xq : x = q <;> by_cases e_xn : x = n <;> by_cases e_xi : x = item <;> simp_all [upd])
-  case some.stl =>
-    have hni : n ≠ item := fun e => H3 (by rw [hh, e])
-    rcases hq : t.endPrev with _ | q
-    · simp [PTable.constructAt, PTable.setCell, PTable.setNextCell, PTable.readCell, PTable.writeCell, PTable.setPrev, PTable.setNext,
-          PTable.prevOf, PTable.setPrevOf, upd_same, upd_upd, Table.storedValue, hh, hq, upd_ne _ _ _ _ hni]
-      try (funext x; by_cases e_xn : x = n <;> by_cases e_xi : x = item <;> simp_all [upd])
-    · have hqi : q ≠ item := fun e => H2 (by simp [PTable.prevOf, hq, e])
-      simp [PTable.constructAt, PTable.setCell, PTable.setNextCell, PTable.readCell, PTable.writeCell, PTable.setPrev, PTable.setNext,
-          PTable.prevOf, PTable.setPrevOf, upd_same, upd_upd, Table.storedValue, hh, hq, upd_ne _ _ _ _ hqi, upd_ne _ _ _ _ hni]
-      try (funext x; by_cases e_qn : q = n <;> by_cases e_xq : x = q <;> by_cases e_xn : x = n <;> by_cases e_xi : x = item <;> simp_all [upd])
-
 /-- The translated `HashMap::insert(position, key, value)` is the model's `insert` – `find`; an existing key gets the value
     and keeps its place; otherwise bucket array on first use, item from the free list or a new block, construction, push to
     the front of the bucket chain, link before `position` – on every table on which the item the allocator hands out is not
@@ -190,28 +154,173 @@ theorem gen_map_insert (h : Nat → Nat) (t : PTable) (pos : Nxt) (k v : Nat)
     (H3 : (t.withBuckets.allocItem Kind.map).2.heads (h k % (t.withBuckets.allocItem Kind.map).2.cap) ≠
       some (t.withBuckets.allocItem Kind.map).1) :
     HashLink.HashMap.insert h t pos k v = (t.insert Kind.map h pos k v).map (fun r => (r.1, Nxt.item r.2)) := by
-  unfold HashLink.HashMap.insert PTable.insert
-  rw [gen_map_find]
-  cases hf : t.find h k with
-  | none => rfl
-  | some r =>
-    cases r with
-    | some id => simp [findResult, iterOf, PTable.setValueAt]
-    | none =>
-      simp only [Option.map_some, findResult, iterOf, if_true]
-      unfold PTable.linkNew
-      rw [withBuckets_eq]
-      have e1 : (if t.allocated then t else t.allocBuckets) = t.withBuckets := rfl
-      rw [e1]
-      generalize t.withBuckets = t0 at H1 H2 H3 ⊢
-      unfold PTable.allocItem at H1 H2 H3 ⊢
-      cases hfree : t0.freeItem with
-      | some f =>
-        simp only [hfree] at H1 H2 H3 ⊢
-        rw [gen_map_insert_link _ _ _ _ _ _ _ H1 H2 H3]
+  first
+  | -- the shape of the current header: one body, the link half in `insert_k1`
+    have hlink : ∀ (t : PTable) (it : Nxt) (item : Nat), pos ≠ .item item → t.prevOf pos ≠ some item →
+        t.heads (h k % t.cap) ≠ some item →
+        HashLink.HashMap.insert_k1 h t pos k v it item =
+          some ((t.linkChain Kind.map item (h k % t.cap) k v).linkOrder item pos, .item item) := by
+      intro t it item H1 H2 H3
+      unfold HashLink.HashMap.insert_k1 PTable.linkChain PTable.linkOrder
+      rcases hh : t.heads (h k % t.cap) with _ | n <;> rcases pos with j | o
+      case none.item =>
+        have hj : j ≠ item := fun e => H1 (by rw [e])
+        rcases hq : (t.items j).prev with _ | q
+        · simp [PTable.constructAt, PTable.setCell, PTable.setNextCell, PTable.readCell, PTable.writeCell, PTable.setPrev, PTable.setNext,
+              PTable.prevOf, PTable.setPrevOf, upd_same, upd_upd, Table.storedValue, hh, hq, upd_ne _ _ _ _ hj]
+          try (funext x; by_cases e_xj : x = j <;> by_cases e_xi : x = item <;> simp_all [upd])
+        · have hqi : q ≠ item := fun e => H2 (by simp [PTable.prevOf, hq, e])
+          simp [PTable.constructAt, PTable.setCell, PTable.setNextCell, PTable.readCell, PTable.writeCell, PTable.setPrev, PTable.setNext,
+              PTable.prevOf, PTable.setPrevOf, upd_same, upd_upd, Table.storedValue, hh, hq, upd_ne _ _ _ _ hj, upd_ne _ _ _ _ hqi]
+          try (funext x; by_cases e_jq : j = q <;> by_cases e_xj : x = j <;> by_cases e_xq : x = q <;> by_cases e_xi : x = item <;> simp_all [upd])
+      case none.stl =>
+        rcases hq : t.endPrev with _ | q
+        · simp [PTable.constructAt, PTable.setCell, PTable.setNextCell, PTable.readCell, PTable.writeCell, PTable.setPrev, PTable.setNext,
+              PTable.prevOf, PTable.setPrevOf, upd_same, upd_upd, Table.storedValue, hh, hq, upd_same]
+          try (funext x; by_cases e_xi : x = item <;> simp_all [upd])
+        · have hqi : q ≠ item := fun e => H2 (by simp [PTable.prevOf, hq, e])
+          simp [PTable.constructAt, PTable.setCell, PTable.setNextCell, PTable.readCell, PTable.writeCell, PTable.setPrev, PTable.setNext,
+              PTable.prevOf, PTable.setPrevOf, upd_same, upd_upd, Table.storedValue, hh, hq, upd_ne _ _ _ _ hqi]
+          try (funext x; by_cases e_xq : x = q <;> by_cases e_xi : x = item <;> simp_all [upd])
+      case some.item =>
+        have hni : n ≠ item := fun e => H3 (by rw [hh, e])
+        have hj : j ≠ item := fun e => H1 (by rw [e])
+        by_cases hjn : j = n
+        · subst hjn
+          rcases hq : (t.items j).prev with _ | q
+          · simp [PTable.constructAt, PTable.setCell, PTable.setNextCell, PTable.readCell, PTable.writeCell, PTable.setPrev, PTable.setNext,
+                PTable.prevOf, PTable.setPrevOf, upd_same, upd_upd, Table.storedValue, hh, hq, upd_ne _ _ _ _ hj, upd_ne _ _ _ _ hni]
+            try (funext x; by_cases e_xj : x = j <;> by_cases e_xi : x = item <;> simp_all [upd])
+          · have hqi : q ≠ item := fun e => H2 (by simp [PTable.prevOf, hq, e])
+            simp [PTable.constructAt, PTable.setCell, PTable.setNextCell, PTable.readCell, PTable.writeCell, PTable.setPrev, PTable.setNext,
+                PTable.prevOf, PTable.setPrevOf, upd_same, upd_upd, Table.storedValue, hh, hq, upd_ne _ _ _ _ hj, upd_ne _ _ _ _ hqi, upd_ne _ _ _ _ hni]
+            try (funext x; by_cases e_jq : j = q <;> by_cases e_xj : x = j <;> by_cases e_xq : x = q <;> by_cases e_xi : x = item <;> simp_all [upd])
+        · have hjn' : j ≠ n := hjn
+          rcases hq : (t.items j).prev with _ | q
+          · simp [PTable.constructAt, PTable.setCell, PTable.setNextCell, PTable.readCell, PTable.writeCell, PTable.setPrev, PTable.setNext,
+                PTable.prevOf, PTable.setPrevOf, upd_same, upd_upd, Table.storedValue, hh, hq, upd_ne _ _ _ _ hj, upd_ne _ _ _ _ hjn', upd_ne _ _ _ _ hni]
+            try (funext x; by_cases e_jn : j = n <;> by_cases e_xj : x = j <;> by_cases e_xn : x = n <;> by_cases e_xi : x = item <;> simp_all [upd])
+          · have hqi : q ≠ item := fun e => H2 (by simp [PTable.prevOf, hq, e])
+            simp [PTable.constructAt, PTable.setCell, PTable.setNextCell, PTable.readCell, PTable.writeCell, PTable.setPrev, PTable.setNext,
+                PTable.prevOf, PTable.setPrevOf, upd_same, upd_upd, Table.storedValue, hh, hq, upd_ne _ _ _ _ hj, upd_ne _ _ _ _ hjn', upd_ne _ _ _ _ hqi, upd_ne _ _ _ _ hni]
+            try (funext x; by_cases e_jq : j = q <;> by_cases e_jn : j = n <;> by_cases e_qn : q = n <;> by_cases e_xj : x = j <;> by_cases e_xq : x = q <;> by_cases e_xn : x = n <;> by_cases e_xi : x = item <;> simp_all [upd])
+      case some.stl =>
+        have hni : n ≠ item := fun e => H3 (by rw [hh, e])
+        rcases hq : t.endPrev with _ | q
+        · simp [PTable.constructAt, PTable.setCell, PTable.setNextCell, PTable.readCell, PTable.writeCell, PTable.setPrev, PTable.setNext,
+              PTable.prevOf, PTable.setPrevOf, upd_same, upd_upd, Table.storedValue, hh, hq, upd_ne _ _ _ _ hni]
+          try (funext x; by_cases e_xn : x = n <;> by_cases e_xi : x = item <;> simp_all [upd])
+        · have hqi : q ≠ item := fun e => H2 (by simp [PTable.prevOf, hq, e])
+          simp [PTable.constructAt, PTable.setCell, PTable.setNextCell, PTable.readCell, PTable.writeCell, PTable.setPrev, PTable.setNext,
+              PTable.prevOf, PTable.setPrevOf, upd_same, upd_upd, Table.storedValue, hh, hq, upd_ne _ _ _ _ hqi, upd_ne _ _ _ _ hni]
+          try (funext x; by_cases e_qn : q = n <;> by_cases e_xq : x = q <;> by_cases e_xn : x = n <;> by_cases e_xi : x = item <;> simp_all [upd])
+    unfold HashLink.HashMap.insert PTable.insert
+    rw [gen_map_find]
+    cases hf : t.find h k with
+    | none => rfl
+    | some r =>
+      cases r with
+      | some id => simp [findResult, iterOf, PTable.setValueAt]
       | none =>
-        simp only [hfree, PTable.newBlockFirst, reduceCtorEq, if_false] at H1 H2 H3 ⊢
-        rw [gen_map_insert_link _ _ _ _ _ _ _ H1 H2 H3]
+        simp only [Option.map_some, findResult, iterOf, if_true]
+        unfold PTable.linkNew
+        rw [withBuckets_eq]
+        have e1 : (if t.allocated then t else t.allocBuckets) = t.withBuckets := rfl
+        rw [e1]
+        generalize t.withBuckets = t0 at H1 H2 H3 ⊢
+        unfold PTable.allocItem at H1 H2 H3 ⊢
+        cases hfree : t0.freeItem with
+        | some f =>
+          simp only [hfree] at H1 H2 H3 ⊢
+          rw [hlink _ _ _ H1 H2 H3]
+        | none =>
+          simp only [hfree, PTable.newBlockFirst, reduceCtorEq, if_false] at H1 H2 H3 ⊢
+          rw [hlink _ _ _ H1 H2 H3]
+  | -- allocation, chain link and order link in helpers `allocateItem`, `linkIntoChain`, `linkBefore`, the lookup through
+    -- `findInChain` (harmless change C02-h4)
+    have halloc : ∀ t0 : PTable,
+        HashLink.HashMap.allocateItem h t0 = some ((t0.allocItem Kind.map).2, some (t0.allocItem Kind.map).1) := by
+      intro t0
+      unfold HashLink.HashMap.allocateItem PTable.allocItem
+      cases hf : t0.freeItem <;> simp [hf, PTable.newBlockFirst]
+    have hchain : ∀ (T : PTable) (item c : Nat),
+        HashLink.HashMap.linkIntoChain h (T.constructAt item k v) item (.bucket c) = some (T.linkChain Kind.map item c k v) := by
+      intro T item c
+      unfold HashLink.HashMap.linkIntoChain PTable.linkChain
+      cases hh : T.heads c <;>
+        simp [PTable.constructAt, PTable.setCell, PTable.setNextCell, PTable.readCell, PTable.writeCell, upd_same, upd_upd,
+          Table.storedValue, hh]
+    have hbefore : ∀ (T : PTable) (item : Nat), pos ≠ .item item → T.prevOf pos ≠ some item →
+        (HashLink.HashMap.linkBefore h T item pos).map (fun t' => ({ t' with size := t'.size + 1 } : PTable)) =
+          some (T.linkOrder item pos) := by
+      intro T item H1 H2
+      unfold HashLink.HashMap.linkBefore PTable.linkOrder
+      rcases pos with j | o
+      · have hj : j ≠ item := fun e => H1 (by rw [e])
+        rcases hq : (T.items j).prev with _ | q
+        · simp [PTable.setPrev, PTable.setNext, PTable.prevOf, PTable.setPrevOf, upd_same, upd_upd, upd_ne _ _ _ _ hj, hq]
+          try (funext x; by_cases e_xj : x = j <;> by_cases e_xi : x = item <;> simp_all [upd])
+        · have hqi : q ≠ item := fun e => H2 (by simp [PTable.prevOf, hq, e])
+          simp [PTable.setPrev, PTable.setNext, PTable.prevOf, PTable.setPrevOf, upd_same, upd_upd, upd_ne _ _ _ _ hj, upd_ne _ _ _ _ hqi, hq]
+          try (funext x; by_cases e_jq : j = q <;> by_cases e_xj : x = j <;> by_cases e_xq : x = q <;> by_cases e_xi : x = item <;> simp_all [upd])
+      · rcases hq : T.endPrev with _ | q
+        · simp [PTable.setPrev, PTable.setNext, PTable.prevOf, PTable.setPrevOf, upd_same, upd_upd, hq]
+          try (funext x; by_cases e_xi : x = item <;> simp_all [upd])
+        · have hqi : q ≠ item := fun e => H2 (by simp [PTable.prevOf, hq, e])
+          simp [PTable.setPrev, PTable.setNext, PTable.prevOf, PTable.setPrevOf, upd_same, upd_upd, upd_ne _ _ _ _ hqi, hq]
+          try (funext x; by_cases e_xq : x = q <;> by_cases e_xi : x = item <;> simp_all [upd])
+    have hk1 : ∀ t0 : PTable, pos ≠ .item (t0.allocItem Kind.map).1 →
+        (t0.allocItem Kind.map).2.prevOf pos ≠ some (t0.allocItem Kind.map).1 →
+        HashLink.HashMap.insert_k1 h t0 pos k v (h k) =
+          some ((((t0.allocItem Kind.map).2.linkChain Kind.map (t0.allocItem Kind.map).1 (h k % (t0.allocItem Kind.map).2.cap) k v).linkOrder
+            (t0.allocItem Kind.map).1 pos), .item (t0.allocItem Kind.map).1) := by
+      intro t0 H1 H2
+      unfold HashLink.HashMap.insert_k1
+      rw [halloc]
+      generalize (t0.allocItem Kind.map) = a at H1 H2 ⊢
+      have hcap : (a.2.constructAt a.1 k v).cap = a.2.cap := rfl
+      simp only [hcap, hchain]
+      have hb := hbefore (a.2.linkChain Kind.map a.1 (h k % a.2.cap) k v) a.1 H1 (by rw [linkChain_prevOf]; exact H2)
+      cases hlb : HashLink.HashMap.linkBefore h (a.2.linkChain Kind.map a.1 (h k % a.2.cap) k v) a.1 pos with
+      | none => rw [hlb] at hb; simp at hb
+      | some t' =>
+        rw [hlb] at hb
+        simp only [Option.map_some, Option.some.injEq] at hb
+        simp only [hb]
+    have hfc : ∀ v' : Option Nat,
+        HashLink.HashMap.findInChain h t v' k = (PTable.walk t.items k t.size v').map (fun r => (t, r)) := by
+      have hl1 : ∀ (fuel : Nat) (v : Option Nat),
+          HashLink.HashMap.findInChain_loop1 h fuel t v k = (PTable.walk t.items k fuel v).map (fun r => (t, r)) := by
+        intro fuel v
+        induction fuel generalizing v with
+        | zero => cases v <;> simp [HashLink.HashMap.findInChain_loop1, PTable.walk]
+        | succ f ih =>
+          cases v with
+          | none => simp [HashLink.HashMap.findInChain_loop1, PTable.walk]
+          | some a =>
+            unfold HashLink.HashMap.findInChain_loop1
+            simp only [PTable.walk]
+            by_cases hk : (t.items a).key = k
+            · simp [hk]
+            · simp only [hk, if_false]; exact ih _
+      intro v; unfold HashLink.HashMap.findInChain; exact hl1 _ _
+    unfold HashLink.HashMap.insert PTable.insert PTable.find PTable.linkNew
+    rw [withBuckets_eq]
+    by_cases ha : t.allocated = true
+    · have hw : t.withBuckets = t := by simp [PTable.withBuckets, ha]
+      rw [hw] at H1 H2 ⊢
+      simp only [ha, if_true, hfc]
+      cases PTable.walk t.items k t.size (t.heads (h k % t.cap)) with
+      | none => rfl
+      | some r =>
+        cases r with
+        | some id => simp [PTable.setValueAt, ha]
+        | none => simp only [Option.map_some]; rw [hk1 t H1 H2]
+    · have ha' : t.allocated = false := by simpa using ha
+      simp only [ha', Bool.false_eq_true, if_false]
+      have hwb : t.allocBuckets = t.withBuckets := by simp [PTable.withBuckets, ha']
+      rw [hwb, hk1 t.withBuckets H1 H2]
+      rfl
 
 /-- … hence on every table that represents a model state, for every position `p ≤ size` (`size` = `end()`). -/
 theorem gen_map_insert_rel {h : Nat → Nat} {pt : PTable} {t : Table} (hr : Rel pt t) (hi : t.Inv h) (p k v : Nat) :
@@ -264,28 +373,55 @@ theorem gen_map_swap (a b : PTable) : HashLink.HashMap.swap a b = some (PTable.s
 
 /-! ### HashSet.hpp -/
 
-theorem gen_set_find_loop (h : Nat → Nat) (t : PTable) (k hc : Nat) (fuel : Nat) (v : Option Nat) :
-    HashLink.HashSet.find_loop1 h fuel t k hc v = (PTable.walk t.items k fuel v).map (findResult t) := by
-  induction fuel generalizing v with
-  | zero => cases v <;> simp [HashLink.HashSet.find_loop1, PTable.walk, iterOf, findResult]
-  | succ f ih =>
-    cases v with
-    | none => simp [HashLink.HashSet.find_loop1, PTable.walk, iterOf, findResult]
-    | some a =>
-      unfold HashLink.HashSet.find_loop1
-      simp only [PTable.walk]
-      by_cases hk : (t.items a).key = k
-      · simp [hk, iterOf, findResult]
-      · simp only [hk, if_false]; exact ih _
-
 /-- The translated `HashSet::find(key)` is the model's `find` (the walk along `nextCell` from the bucket head), for EVERY
     table, key and hash function: the iterator of the item, `end()` if there is none; out of fuel iff the model is. -/
 theorem gen_set_find (h : Nat → Nat) (t : PTable) (k : Nat) :
     HashLink.HashSet.find h t k = (t.find h k).map (findResult t) := by
-  unfold HashLink.HashSet.find PTable.find
-  by_cases ha : t.allocated = true
-  · simp only [ha, if_true]; exact gen_set_find_loop h t k _ _ _
-  · simp [ha, iterOf, findResult]
+  first
+  | -- the walk written in `find` itself
+    have hl : ∀ (fuel hc : Nat) (v : Option Nat),
+        HashLink.HashSet.find_loop1 h fuel t k hc v = (PTable.walk t.items k fuel v).map (findResult t) := by
+      intro fuel hc v
+      induction fuel generalizing v with
+      | zero => cases v <;> simp [HashLink.HashSet.find_loop1, PTable.walk, iterOf, findResult]
+      | succ f ih =>
+        cases v with
+        | none => simp [HashLink.HashSet.find_loop1, PTable.walk, iterOf, findResult]
+        | some a =>
+          unfold HashLink.HashSet.find_loop1
+          simp only [PTable.walk]
+          by_cases hk : (t.items a).key = k
+          · simp [hk, iterOf, findResult]
+          · simp only [hk, if_false]; exact ih _
+    unfold HashLink.HashSet.find PTable.find
+    by_cases ha : t.allocated = true
+    · simp only [ha, if_true]; exact hl _ _ _
+    · simp [ha, iterOf, findResult]
+  | -- the walk in a helper `findInChain(item, key)` that returns the item or null (harmless change C02-h4)
+    have hl : ∀ v : Option Nat,
+        HashLink.HashSet.findInChain h t v k = (PTable.walk t.items k t.size v).map (fun r => (t, r)) := by
+      have hl1 : ∀ (fuel : Nat) (v : Option Nat),
+          HashLink.HashSet.findInChain_loop1 h fuel t v k = (PTable.walk t.items k fuel v).map (fun r => (t, r)) := by
+        intro fuel v
+        induction fuel generalizing v with
+        | zero => cases v <;> simp [HashLink.HashSet.findInChain_loop1, PTable.walk]
+        | succ f ih =>
+          cases v with
+          | none => simp [HashLink.HashSet.findInChain_loop1, PTable.walk]
+          | some a =>
+            unfold HashLink.HashSet.findInChain_loop1
+            simp only [PTable.walk]
+            by_cases hk : (t.items a).key = k
+            · simp [hk]
+            · simp only [hk, if_false]; exact ih _
+      intro v; unfold HashLink.HashSet.findInChain; exact hl1 _ _
+    unfold HashLink.HashSet.find PTable.find
+    by_cases ha : t.allocated = true
+    · simp only [ha, if_true, hl]
+      cases PTable.walk t.items k t.size (t.heads (h k % t.cap)) with
+      | none => rfl
+      | some r => cases r <;> rfl
+    · simp [ha, iterOf, findResult]
 
 /-- The translated `HashSet::remove(const Iterator&)` is the model's `removeItem` (unlink from the bucket chain through the
     `cell` back-pointer, unlink from the order list, push on the free list, return `item->next`) on every table in which the
@@ -348,69 +484,6 @@ theorem gen_set_removeBack {h : Nat → Nat} {pt : PTable} {t : Table} (hr : Rel
       exact List.mem_of_getLast? this.symm
     simp [gen_set_removeIt_rel hr hi x hm]
 
-/-- The second half of the translated `HashSet::insert` (construction, push to the front of the bucket chain, link before
-    `position`) is the model's `linkChain` followed by `linkOrder` on every table in which the fresh item is neither the item
-    `position` designates, nor its predecessor, nor the head of the bucket.  Proved by evaluating every read through the
-    stores before it and comparing the two heaps pointwise, so the order of independent stores in the body does not matter
-    (harmless change C02-h1: order list first, chain second). -/
-theorem gen_set_insert_link (h : Nat → Nat) (t : PTable) (pos : Nxt) (k v : Nat) (it : Nxt) (item : Nat)
-    (H1 : pos ≠ .item item) (H2 : t.prevOf pos ≠ some item) (H3 : t.heads (h k % t.cap) ≠ some item) :
-    HashLink.HashSet.insert_k1 h t pos k it item =
-      some ((t.linkChain Kind.set item (h k % t.cap) k v).linkOrder item pos, .item item) := by
-  unfold HashLink.HashSet.insert_k1 PTable.linkChain PTable.linkOrder
-  rcases hh : t.heads (h k % t.cap) with _ | n <;> rcases pos with j | o
-  case none.item =>
-    have hj : j ≠ item := fun e => H1 (by rw [e])
-    rcases hq : (t.items j).prev with _ | q
-    · simp [PTable.constructAt, PTable.setCell, PTable.setNextCell, PTable.readCell, PTable.writeCell, PTable.setPrev, PTable.setNext,
-          PTable.prevOf, PTable.setPrevOf, upd_same, upd_upd, Table.storedValue, hh, hq, upd_ne _ _ _ _ hj]
-      try (funext x; by_cases e_xj : x = j <;> by_cases e_xi : x = item <;> simp_all [upd])
-    · have hqi : q ≠ item := fun e => H2 (by simp [PTable.prevOf, hq, e])
-      simp [PTable.constructAt, PTable.setCell, PTable.setNextCell, PTable.readCell, PTable.writeCell, PTable.setPrev, PTable.setNext,
-          PTable.prevOf, PTable.setPrevOf, upd_same, upd_upd, Table.storedValue, hh, hq, upd_ne _ _ _ _ hj, upd_ne _ _ _ _ hqi]
-      try (funext x; by_cases e_jq : j = q <;> by_cases e_xj : x = j <;> by_cases e_xq : x = q <;> by_cases e_xi : x = item <;> simp_all [upd])
-  case none.stl =>
-    rcases hq : t.endPrev with _ | q
-    · simp [PTable.constructAt, PTable.setCell, PTable.setNextCell, PTable.readCell, PTable.writeCell, PTable.setPrev, PTable.setNext,
-          PTable.prevOf, PTable.setPrevOf, upd_same, upd_upd, Table.storedValue, hh, hq, upd_same]
-      try (funext x; by_cases e_xi : x = item <;> simp_all [upd])
-    · have hqi : q ≠ item := fun e => H2 (by simp [PTable.prevOf, hq, e])
-      simp [PTable.constructAt, PTable.setCell, PTable.setNextCell, PTable.readCell, PTable.writeCell, PTable.setPrev, PTable.setNext,
-          PTable.prevOf, PTable.setPrevOf, upd_same, upd_upd, Table.storedValue, hh, hq, upd_ne _ _ _ _ hqi]
-      try (funext x; by_cases e_xq : x = q <;> by_cases e_xi : x = item <;> simp_all [upd])
-  case some.item =>
-    have hni : n ≠ item := fun e => H3 (by rw [hh, e])
-    have hj : j ≠ item := fun e => H1 (by rw [e])
-    by_cases hjn : j = n
-    · subst hjn
-      rcases hq : (t.items j).prev with _ | q
-      · simp [PTable.constructAt, PTable.setCell, PTable.setNextCell, PTable.readCell, PTable.writeCell, PTable.setPrev, PTable.setNext,
-            PTable.prevOf, PTable.setPrevOf, upd_same, upd_upd, Table.storedValue, hh, hq, upd_ne _ _ _ _ hj, upd_ne _ _ _ _ hni]
-        try (funext x; by_cases e_xj : x = j <;> by_cases e_xi : x = item <;> simp_all [upd])
-      · have hqi : q ≠ item := fun e => H2 (by simp [PTable.prevOf, hq, e])
-        simp [PTable.constructAt, PTable.setCell, PTable.setNextCell, PTable.readCell, PTable.writeCell, PTable.setPrev, PTable.setNext,
-            PTable.prevOf, PTable.setPrevOf, upd_same, upd_upd, Table.storedValue, hh, hq, upd_ne _ _ _ _ hj, upd_ne _ _ _ _ hqi, upd_ne _ _ _ _ hni]
-        try (funext x; by_cases e_jq : j = q <;> by_cases e_xj : x = j <;> by_cases e_xq : x = q <;> by_cases e_xi : x = item <;> simp_all [upd])
-    · have hjn' : j ≠ n := hjn
-      rcases hq : (t.items j).prev with _ | q
-      · simp [PTable.constructAt, PTable.setCell, PTable.setNextCell, PTable.readCell, PTable.writeCell, PTable.setPrev, PTable.setNext,
-            PTable.prevOf, PTable.setPrevOf, upd_same, upd_upd, Table.storedValue, hh, hq, upd_ne _ _ _ _ hj, upd_ne _ _ _ _ hjn', upd_ne _ _ _ _ hni]
-        try (funext x; by_cases e_jn : j = n <;> by_cases e_xj : x = j <;> by_cases e_xn : x = n <;> by_cases e_xi : x = item <;> simp_all [upd])
-      · have hqi : q ≠ item := fun e => H2 (by simp [PTable.prevOf, hq, e])
-        simp [PTable.constructAt, PTable.setCell, PTable.setNextCell, PTable.readCell, PTable.writeCell, PTable.setPrev, PTable.setNext,
-            PTable.prevOf, PTable.setPrevOf, upd_same, upd_upd, Table.storedValue, hh, hq, upd_ne _ _ _ _ hj, upd_ne _ _ _ _ hjn', upd_ne _ _ _ _ hqi, upd_ne _ _ _ _ hni]
-        try (funext x; by_cases e_jq : j = q <;> by_cases e_jn : j = n <;> by_cases e_qn : q = n <;> by_cases e_xj : x = j <;> by_cases e_xq : x = q <;> by_cases e_xn : x = n <;> by_cases e_xi : x = item <;> simp_all [upd])
-  case some.stl =>
-    have hni : n ≠ item := fun e => H3 (by rw [hh, e])
-    rcases hq : t.endPrev with _ | q
-    · simp [PTable.constructAt, PTable.setCell, PTable.setNextCell, PTable.readCell, PTable.writeCell, PTable.setPrev, PTable.setNext,
-          PTable.prevOf, PTable.setPrevOf, upd_same, upd_upd, Table.storedValue, hh, hq, upd_ne _ _ _ _ hni]
-      try (funext x; by_cases e_xn : x = n <;> by_cases e_xi : x = item <;> simp_all [upd])
-    · have hqi : q ≠ item := fun e => H2 (by simp [PTable.prevOf, hq, e])
-      simp [PTable.constructAt, PTable.setCell, PTable.setNextCell, PTable.readCell, PTable.writeCell, PTable.setPrev, PTable.setNext,
-          PTable.prevOf, PTable.setPrevOf, upd_same, upd_upd, Table.storedValue, hh, hq, upd_ne _ _ _ _ hqi, upd_ne _ _ _ _ hni]
-      try (funext x; by_cases e_qn : q = n <;> by_cases e_xq : x = q <;> by_cases e_xn : x = n <;> by_cases e_xi : x = item <;> simp_all [upd])
-
 /-- The translated `HashSet::insert(position, key, value)` is the model's `insert` – `find`; an existing key gets the value
     and keeps its place; otherwise bucket array on first use, item from the free list or a new block, construction, push to
     the front of the bucket chain, link before `position` – on every table on which the item the allocator hands out is not
@@ -421,28 +494,173 @@ theorem gen_set_insert (h : Nat → Nat) (t : PTable) (pos : Nxt) (k v : Nat)
     (H3 : (t.withBuckets.allocItem Kind.set).2.heads (h k % (t.withBuckets.allocItem Kind.set).2.cap) ≠
       some (t.withBuckets.allocItem Kind.set).1) :
     HashLink.HashSet.insert h t pos k = (t.insert Kind.set h pos k v).map (fun r => (r.1, Nxt.item r.2)) := by
-  unfold HashLink.HashSet.insert PTable.insert
-  rw [gen_set_find]
-  cases hf : t.find h k with
-  | none => rfl
-  | some r =>
-    cases r with
-    | some id => simp [findResult, iterOf]
-    | none =>
-      simp only [Option.map_some, findResult, iterOf, if_true]
-      unfold PTable.linkNew
-      rw [withBuckets_eq]
-      have e1 : (if t.allocated then t else t.allocBuckets) = t.withBuckets := rfl
-      rw [e1]
-      generalize t.withBuckets = t0 at H1 H2 H3 ⊢
-      unfold PTable.allocItem at H1 H2 H3 ⊢
-      cases hfree : t0.freeItem with
-      | some f =>
-        simp only [hfree] at H1 H2 H3 ⊢
-        rw [gen_set_insert_link _ _ _ _ v _ _ H1 H2 H3]
+  first
+  | -- the shape of the current header: one body, the link half in `insert_k1`
+    have hlink : ∀ (t : PTable) (it : Nxt) (item : Nat), pos ≠ .item item → t.prevOf pos ≠ some item →
+        t.heads (h k % t.cap) ≠ some item →
+        HashLink.HashSet.insert_k1 h t pos k it item =
+          some ((t.linkChain Kind.set item (h k % t.cap) k v).linkOrder item pos, .item item) := by
+      intro t it item H1 H2 H3
+      unfold HashLink.HashSet.insert_k1 PTable.linkChain PTable.linkOrder
+      rcases hh : t.heads (h k % t.cap) with _ | n <;> rcases pos with j | o
+      case none.item =>
+        have hj : j ≠ item := fun e => H1 (by rw [e])
+        rcases hq : (t.items j).prev with _ | q
+        · simp [PTable.constructAt, PTable.setCell, PTable.setNextCell, PTable.readCell, PTable.writeCell, PTable.setPrev, PTable.setNext,
+              PTable.prevOf, PTable.setPrevOf, upd_same, upd_upd, Table.storedValue, hh, hq, upd_ne _ _ _ _ hj]
+          try (funext x; by_cases e_xj : x = j <;> by_cases e_xi : x = item <;> simp_all [upd])
+        · have hqi : q ≠ item := fun e => H2 (by simp [PTable.prevOf, hq, e])
+          simp [PTable.constructAt, PTable.setCell, PTable.setNextCell, PTable.readCell, PTable.writeCell, PTable.setPrev, PTable.setNext,
+              PTable.prevOf, PTable.setPrevOf, upd_same, upd_upd, Table.storedValue, hh, hq, upd_ne _ _ _ _ hj, upd_ne _ _ _ _ hqi]
+          try (funext x; by_cases e_jq : j = q <;> by_cases e_xj : x = j <;> by_cases e_xq : x = q <;> by_cases e_xi : x = item <;> simp_all [upd])
+      case none.stl =>
+        rcases hq : t.endPrev with _ | q
+        · simp [PTable.constructAt, PTable.setCell, PTable.setNextCell, PTable.readCell, PTable.writeCell, PTable.setPrev, PTable.setNext,
+              PTable.prevOf, PTable.setPrevOf, upd_same, upd_upd, Table.storedValue, hh, hq, upd_same]
+          try (funext x; by_cases e_xi : x = item <;> simp_all [upd])
+        · have hqi : q ≠ item := fun e => H2 (by simp [PTable.prevOf, hq, e])
+          simp [PTable.constructAt, PTable.setCell, PTable.setNextCell, PTable.readCell, PTable.writeCell, PTable.setPrev, PTable.setNext,
+              PTable.prevOf, PTable.setPrevOf, upd_same, upd_upd, Table.storedValue, hh, hq, upd_ne _ _ _ _ hqi]
+          try (funext x; by_cases e_xq : x = q <;> by_cases e_xi : x = item <;> simp_all [upd])
+      case some.item =>
+        have hni : n ≠ item := fun e => H3 (by rw [hh, e])
+        have hj : j ≠ item := fun e => H1 (by rw [e])
+        by_cases hjn : j = n
+        · subst hjn
+          rcases hq : (t.items j).prev with _ | q
+          · simp [PTable.constructAt, PTable.setCell, PTable.setNextCell, PTable.readCell, PTable.writeCell, PTable.setPrev, PTable.setNext,
+                PTable.prevOf, PTable.setPrevOf, upd_same, upd_upd, Table.storedValue, hh, hq, upd_ne _ _ _ _ hj, upd_ne _ _ _ _ hni]
+            try (funext x; by_cases e_xj : x = j <;> by_cases e_xi : x = item <;> simp_all [upd])
+          · have hqi : q ≠ item := fun e => H2 (by simp [PTable.prevOf, hq, e])
+            simp [PTable.constructAt, PTable.setCell, PTable.setNextCell, PTable.readCell, PTable.writeCell, PTable.setPrev, PTable.setNext,
+                PTable.prevOf, PTable.setPrevOf, upd_same, upd_upd, Table.storedValue, hh, hq, upd_ne _ _ _ _ hj, upd_ne _ _ _ _ hqi, upd_ne _ _ _ _ hni]
+            try (funext x; by_cases e_jq : j = q <;> by_cases e_xj : x = j <;> by_cases e_xq : x = q <;> by_cases e_xi : x = item <;> simp_all [upd])
+        · have hjn' : j ≠ n := hjn
+          rcases hq : (t.items j).prev with _ | q
+          · simp [PTable.constructAt, PTable.setCell, PTable.setNextCell, PTable.readCell, PTable.writeCell, PTable.setPrev, PTable.setNext,
+                PTable.prevOf, PTable.setPrevOf, upd_same, upd_upd, Table.storedValue, hh, hq, upd_ne _ _ _ _ hj, upd_ne _ _ _ _ hjn', upd_ne _ _ _ _ hni]
+            try (funext x; by_cases e_jn : j = n <;> by_cases e_xj : x = j <;> by_cases e_xn : x = n <;> by_cases e_xi : x = item <;> simp_all [upd])
+          · have hqi : q ≠ item := fun e => H2 (by simp [PTable.prevOf, hq, e])
+            simp [PTable.constructAt, PTable.setCell, PTable.setNextCell, PTable.readCell, PTable.writeCell, PTable.setPrev, PTable.setNext,
+                PTable.prevOf, PTable.setPrevOf, upd_same, upd_upd, Table.storedValue, hh, hq, upd_ne _ _ _ _ hj, upd_ne _ _ _ _ hjn', upd_ne _ _ _ _ hqi, upd_ne _ _ _ _ hni]
+            try (funext x; by_cases e_jq : j = q <;> by_cases e_jn : j = n <;> by_cases e_qn : q = n <;> by_cases e_xj : x = j <;> by_cases e_xq : x = q <;> by_cases e_xn : x = n <;> by_cases e_xi : x = item <;> simp_all [upd])
+      case some.stl =>
+        have hni : n ≠ item := fun e => H3 (by rw [hh, e])
+        rcases hq : t.endPrev with _ | q
+        · simp [PTable.constructAt, PTable.setCell, PTable.setNextCell, PTable.readCell, PTable.writeCell, PTable.setPrev, PTable.setNext,
+              PTable.prevOf, PTable.setPrevOf, upd_same, upd_upd, Table.storedValue, hh, hq, upd_ne _ _ _ _ hni]
+          try (funext x; by_cases e_xn : x = n <;> by_cases e_xi : x = item <;> simp_all [upd])
+        · have hqi : q ≠ item := fun e => H2 (by simp [PTable.prevOf, hq, e])
+          simp [PTable.constructAt, PTable.setCell, PTable.setNextCell, PTable.readCell, PTable.writeCell, PTable.setPrev, PTable.setNext,
+              PTable.prevOf, PTable.setPrevOf, upd_same, upd_upd, Table.storedValue, hh, hq, upd_ne _ _ _ _ hqi, upd_ne _ _ _ _ hni]
+          try (funext x; by_cases e_qn : q = n <;> by_cases e_xq : x = q <;> by_cases e_xn : x = n <;> by_cases e_xi : x = item <;> simp_all [upd])
+    unfold HashLink.HashSet.insert PTable.insert
+    rw [gen_set_find]
+    cases hf : t.find h k with
+    | none => rfl
+    | some r =>
+      cases r with
+      | some id => simp [findResult, iterOf]
       | none =>
-        simp only [hfree, PTable.newBlockFirst, reduceCtorEq, if_false] at H1 H2 H3 ⊢
-        rw [gen_set_insert_link _ _ _ _ v _ _ H1 H2 H3]
+        simp only [Option.map_some, findResult, iterOf, if_true]
+        unfold PTable.linkNew
+        rw [withBuckets_eq]
+        have e1 : (if t.allocated then t else t.allocBuckets) = t.withBuckets := rfl
+        rw [e1]
+        generalize t.withBuckets = t0 at H1 H2 H3 ⊢
+        unfold PTable.allocItem at H1 H2 H3 ⊢
+        cases hfree : t0.freeItem with
+        | some f =>
+          simp only [hfree] at H1 H2 H3 ⊢
+          rw [hlink _ _ _ H1 H2 H3]
+        | none =>
+          simp only [hfree, PTable.newBlockFirst, reduceCtorEq, if_false] at H1 H2 H3 ⊢
+          rw [hlink _ _ _ H1 H2 H3]
+  | -- allocation, chain link and order link in helpers `allocateItem`, `linkIntoChain`, `linkBefore`, the lookup through
+    -- `findInChain` (harmless change C02-h4)
+    have halloc : ∀ t0 : PTable,
+        HashLink.HashSet.allocateItem h t0 = some ((t0.allocItem Kind.set).2, some (t0.allocItem Kind.set).1) := by
+      intro t0
+      unfold HashLink.HashSet.allocateItem PTable.allocItem
+      cases hf : t0.freeItem <;> simp [hf, PTable.newBlockFirst]
+    have hchain : ∀ (T : PTable) (item c : Nat),
+        HashLink.HashSet.linkIntoChain h (T.constructAt item k 0) item (.bucket c) = some (T.linkChain Kind.set item c k v) := by
+      intro T item c
+      unfold HashLink.HashSet.linkIntoChain PTable.linkChain
+      cases hh : T.heads c <;>
+        simp [PTable.constructAt, PTable.setCell, PTable.setNextCell, PTable.readCell, PTable.writeCell, upd_same, upd_upd,
+          Table.storedValue, hh]
+    have hbefore : ∀ (T : PTable) (item : Nat), pos ≠ .item item → T.prevOf pos ≠ some item →
+        (HashLink.HashSet.linkBefore h T item pos).map (fun t' => ({ t' with size := t'.size + 1 } : PTable)) =
+          some (T.linkOrder item pos) := by
+      intro T item H1 H2
+      unfold HashLink.HashSet.linkBefore PTable.linkOrder
+      rcases pos with j | o
+      · have hj : j ≠ item := fun e => H1 (by rw [e])
+        rcases hq : (T.items j).prev with _ | q
+        · simp [PTable.setPrev, PTable.setNext, PTable.prevOf, PTable.setPrevOf, upd_same, upd_upd, upd_ne _ _ _ _ hj, hq]
+          try (funext x; by_cases e_xj : x = j <;> by_cases e_xi : x = item <;> simp_all [upd])
+        · have hqi : q ≠ item := fun e => H2 (by simp [PTable.prevOf, hq, e])
+          simp [PTable.setPrev, PTable.setNext, PTable.prevOf, PTable.setPrevOf, upd_same, upd_upd, upd_ne _ _ _ _ hj, upd_ne _ _ _ _ hqi, hq]
+          try (funext x; by_cases e_jq : j = q <;> by_cases e_xj : x = j <;> by_cases e_xq : x = q <;> by_cases e_xi : x = item <;> simp_all [upd])
+      · rcases hq : T.endPrev with _ | q
+        · simp [PTable.setPrev, PTable.setNext, PTable.prevOf, PTable.setPrevOf, upd_same, upd_upd, hq]
+          try (funext x; by_cases e_xi : x = item <;> simp_all [upd])
+        · have hqi : q ≠ item := fun e => H2 (by simp [PTable.prevOf, hq, e])
+          simp [PTable.setPrev, PTable.setNext, PTable.prevOf, PTable.setPrevOf, upd_same, upd_upd, upd_ne _ _ _ _ hqi, hq]
+          try (funext x; by_cases e_xq : x = q <;> by_cases e_xi : x = item <;> simp_all [upd])
+    have hk1 : ∀ t0 : PTable, pos ≠ .item (t0.allocItem Kind.set).1 →
+        (t0.allocItem Kind.set).2.prevOf pos ≠ some (t0.allocItem Kind.set).1 →
+        HashLink.HashSet.insert_k1 h t0 pos k (h k) =
+          some ((((t0.allocItem Kind.set).2.linkChain Kind.set (t0.allocItem Kind.set).1 (h k % (t0.allocItem Kind.set).2.cap) k v).linkOrder
+            (t0.allocItem Kind.set).1 pos), .item (t0.allocItem Kind.set).1) := by
+      intro t0 H1 H2
+      unfold HashLink.HashSet.insert_k1
+      rw [halloc]
+      generalize (t0.allocItem Kind.set) = a at H1 H2 ⊢
+      have hcap : (a.2.constructAt a.1 k 0).cap = a.2.cap := rfl
+      simp only [hcap, hchain]
+      have hb := hbefore (a.2.linkChain Kind.set a.1 (h k % a.2.cap) k v) a.1 H1 (by rw [linkChain_prevOf]; exact H2)
+      cases hlb : HashLink.HashSet.linkBefore h (a.2.linkChain Kind.set a.1 (h k % a.2.cap) k v) a.1 pos with
+      | none => rw [hlb] at hb; simp at hb
+      | some t' =>
+        rw [hlb] at hb
+        simp only [Option.map_some, Option.some.injEq] at hb
+        simp only [hb]
+    have hfc : ∀ v' : Option Nat,
+        HashLink.HashSet.findInChain h t v' k = (PTable.walk t.items k t.size v').map (fun r => (t, r)) := by
+      have hl1 : ∀ (fuel : Nat) (v : Option Nat),
+          HashLink.HashSet.findInChain_loop1 h fuel t v k = (PTable.walk t.items k fuel v).map (fun r => (t, r)) := by
+        intro fuel v
+        induction fuel generalizing v with
+        | zero => cases v <;> simp [HashLink.HashSet.findInChain_loop1, PTable.walk]
+        | succ f ih =>
+          cases v with
+          | none => simp [HashLink.HashSet.findInChain_loop1, PTable.walk]
+          | some a =>
+            unfold HashLink.HashSet.findInChain_loop1
+            simp only [PTable.walk]
+            by_cases hk : (t.items a).key = k
+            · simp [hk]
+            · simp only [hk, if_false]; exact ih _
+      intro v; unfold HashLink.HashSet.findInChain; exact hl1 _ _
+    unfold HashLink.HashSet.insert PTable.insert PTable.find PTable.linkNew
+    rw [withBuckets_eq]
+    by_cases ha : t.allocated = true
+    · have hw : t.withBuckets = t := by simp [PTable.withBuckets, ha]
+      rw [hw] at H1 H2 ⊢
+      simp only [ha, if_true, hfc]
+      cases PTable.walk t.items k t.size (t.heads (h k % t.cap)) with
+      | none => rfl
+      | some r =>
+        cases r with
+        | some id => simp [ha]
+        | none => simp only [Option.map_some]; rw [hk1 t H1 H2]
+    · have ha' : t.allocated = false := by simpa using ha
+      simp only [ha', Bool.false_eq_true, if_false]
+      have hwb : t.allocBuckets = t.withBuckets := by simp [PTable.withBuckets, ha']
+      rw [hwb, hk1 t.withBuckets H1 H2]
+      rfl
 
 /-- … hence on every table that represents a model state, for every position `p ≤ size` (`size` = `end()`). -/
 theorem gen_set_insert_rel {h : Nat → Nat} {pt : PTable} {t : Table} (hr : Rel pt t) (hi : t.Inv h) (p k v : Nat) :
@@ -496,28 +714,55 @@ theorem gen_set_swap (a b : PTable) : HashLink.HashSet.swap a b = some (PTable.s
 
 /-! ### PoolMap.hpp -/
 
-theorem gen_pool_find_loop (h : Nat → Nat) (t : PTable) (k hc : Nat) (fuel : Nat) (v : Option Nat) :
-    HashLink.PoolMap.find_loop1 h fuel t k hc v = (PTable.walk t.items k fuel v).map (findResult t) := by
-  induction fuel generalizing v with
-  | zero => cases v <;> simp [HashLink.PoolMap.find_loop1, PTable.walk, iterOf, findResult]
-  | succ f ih =>
-    cases v with
-    | none => simp [HashLink.PoolMap.find_loop1, PTable.walk, iterOf, findResult]
-    | some a =>
-      unfold HashLink.PoolMap.find_loop1
-      simp only [PTable.walk]
-      by_cases hk : (t.items a).key = k
-      · simp [hk, iterOf, findResult]
-      · simp only [hk, if_false]; exact ih _
-
 /-- The translated `PoolMap::find(key)` is the model's `find` (the walk along `nextCell` from the bucket head), for EVERY
     table, key and hash function: the iterator of the item, `end()` if there is none; out of fuel iff the model is. -/
 theorem gen_pool_find (h : Nat → Nat) (t : PTable) (k : Nat) :
     HashLink.PoolMap.find h t k = (t.find h k).map (findResult t) := by
-  unfold HashLink.PoolMap.find PTable.find
-  by_cases ha : t.allocated = true
-  · simp only [ha, if_true]; exact gen_pool_find_loop h t k _ _ _
-  · simp [ha, iterOf, findResult]
+  first
+  | -- the walk written in `find` itself
+    have hl : ∀ (fuel hc : Nat) (v : Option Nat),
+        HashLink.PoolMap.find_loop1 h fuel t k hc v = (PTable.walk t.items k fuel v).map (findResult t) := by
+      intro fuel hc v
+      induction fuel generalizing v with
+      | zero => cases v <;> simp [HashLink.PoolMap.find_loop1, PTable.walk, iterOf, findResult]
+      | succ f ih =>
+        cases v with
+        | none => simp [HashLink.PoolMap.find_loop1, PTable.walk, iterOf, findResult]
+        | some a =>
+          unfold HashLink.PoolMap.find_loop1
+          simp only [PTable.walk]
+          by_cases hk : (t.items a).key = k
+          · simp [hk, iterOf, findResult]
+          · simp only [hk, if_false]; exact ih _
+    unfold HashLink.PoolMap.find PTable.find
+    by_cases ha : t.allocated = true
+    · simp only [ha, if_true]; exact hl _ _ _
+    · simp [ha, iterOf, findResult]
+  | -- the walk in a helper `findInChain(item, key)` that returns the item or null (harmless change C02-h4)
+    have hl : ∀ v : Option Nat,
+        HashLink.PoolMap.findInChain h t v k = (PTable.walk t.items k t.size v).map (fun r => (t, r)) := by
+      have hl1 : ∀ (fuel : Nat) (v : Option Nat),
+          HashLink.PoolMap.findInChain_loop1 h fuel t v k = (PTable.walk t.items k fuel v).map (fun r => (t, r)) := by
+        intro fuel v
+        induction fuel generalizing v with
+        | zero => cases v <;> simp [HashLink.PoolMap.findInChain_loop1, PTable.walk]
+        | succ f ih =>
+          cases v with
+          | none => simp [HashLink.PoolMap.findInChain_loop1, PTable.walk]
+          | some a =>
+            unfold HashLink.PoolMap.findInChain_loop1
+            simp only [PTable.walk]
+            by_cases hk : (t.items a).key = k
+            · simp [hk]
+            · simp only [hk, if_false]; exact ih _
+      intro v; unfold HashLink.PoolMap.findInChain; exact hl1 _ _
+    unfold HashLink.PoolMap.find PTable.find
+    by_cases ha : t.allocated = true
+    · simp only [ha, if_true, hl]
+      cases PTable.walk t.items k t.size (t.heads (h k % t.cap)) with
+      | none => rfl
+      | some r => cases r <;> rfl
+    · simp [ha, iterOf, findResult]
 
 /-- The translated `PoolMap::remove(const V& value)` (`item` = the item the value lives in) is the table the model's
     `removeItem` yields, on every table in which the item's `cell` does not designate the item's own `nextCell` (proved
@@ -582,64 +827,6 @@ theorem gen_pool_removeBack {h : Nat → Nat} {pt : PTable} {t : Table} (hr : Re
       exact List.mem_of_getLast? this.symm
     simp [gen_pool_removeIt_rel hr hi x hm]
 
-theorem gen_pool_insert_link (h : Nat → Nat) (t : PTable) (pos : Nxt) (k v : Nat) (it : Nxt) (item : Nat)
-    (H1 : pos ≠ .item item) (H2 : t.prevOf pos ≠ some item) (H3 : t.heads (h k % t.cap) ≠ some item) :
-    HashLink.PoolMap.insert_k1 h t pos k it (some item) =
-      some ((({ t with freeItem := (t.items item).prev } : PTable).linkChain Kind.pool item (h k % t.cap) k v).linkOrder item pos, .item item) := by
-  unfold HashLink.PoolMap.insert_k1 PTable.linkChain PTable.linkOrder
-  rcases hh : t.heads (h k % t.cap) with _ | n <;> rcases pos with j | o
-  case none.item =>
-    have hj : j ≠ item := fun e => H1 (by rw [e])
-    rcases hq : (t.items j).prev with _ | q
-    · simp [PTable.constructAt, PTable.setCell, PTable.setNextCell, PTable.readCell, PTable.writeCell, PTable.setPrev, PTable.setNext,
-          PTable.prevOf, PTable.setPrevOf, upd_same, upd_upd, Table.storedValue, hh, hq, upd_ne _ _ _ _ hj]
-      try (funext x; by_cases e_xj : x = j <;> by_cases e_xi : x = item <;> simp_all [upd])
-    · have hqi : q ≠ item := fun e => H2 (by simp [PTable.prevOf, hq, e])
-      simp [PTable.constructAt, PTable.setCell, PTable.setNextCell, PTable.readCell, PTable.writeCell, PTable.setPrev, PTable.setNext,
-          PTable.prevOf, PTable.setPrevOf, upd_same, upd_upd, Table.storedValue, hh, hq, upd_ne _ _ _ _ hj, upd_ne _ _ _ _ hqi]
-      try (funext x; by_cases e_jq : j = q <;> by_cases e_xj : x = j <;> by_cases e_xq : x = q <;> by_cases e_xi : x = item <;> simp_all [upd])
-  case none.stl =>
-    rcases hq : t.endPrev with _ | q
-    · simp [PTable.constructAt, PTable.setCell, PTable.setNextCell, PTable.readCell, PTable.writeCell, PTable.setPrev, PTable.setNext,
-          PTable.prevOf, PTable.setPrevOf, upd_same, upd_upd, Table.storedValue, hh, hq, upd_same]
-      try (funext x; by_cases e_xi : x = item <;> simp_all [upd])
-    · have hqi : q ≠ item := fun e => H2 (by simp [PTable.prevOf, hq, e])
-      simp [PTable.constructAt, PTable.setCell, PTable.setNextCell, PTable.readCell, PTable.writeCell, PTable.setPrev, PTable.setNext,
-          PTable.prevOf, PTable.setPrevOf, upd_same, upd_upd, Table.storedValue, hh, hq, upd_ne _ _ _ _ hqi]
-      try (funext x; by_cases e_xq : x = q <;> by_cases e_xi : x = item <;> simp_all [upd])
-  case some.item =>
-    have hni : n ≠ item := fun e => H3 (by rw [hh, e])
-    have hj : j ≠ item := fun e => H1 (by rw [e])
-    by_cases hjn : j = n
-    · subst hjn
-      rcases hq : (t.items j).prev with _ | q
-      · simp [PTable.constructAt, PTable.setCell, PTable.setNextCell, PTable.readCell, PTable.writeCell, PTable.setPrev, PTable.setNext,
-            PTable.prevOf, PTable.setPrevOf, upd_same, upd_upd, Table.storedValue, hh, hq, upd_ne _ _ _ _ hj, upd_ne _ _ _ _ hni]
-        try (funext x; by_cases e_xj : x = j <;> by_cases e_xi : x = item <;> simp_all [upd])
-      · have hqi : q ≠ item := fun e => H2 (by simp [PTable.prevOf, hq, e])
-        simp [PTable.constructAt, PTable.setCell, PTable.setNextCell, PTable.readCell, PTable.writeCell, PTable.setPrev, PTable.setNext,
-            PTable.prevOf, PTable.setPrevOf, upd_same, upd_upd, Table.storedValue, hh, hq, upd_ne _ _ _ _ hj, upd_ne _ _ _ _ hqi, upd_ne _ _ _ _ hni]
-        try (funext x; by_cases e_jq : j = q <;> by_cases e_xj : x = j <;> by_cases e_xq : x = q <;> by_cases e_xi : x = item <;> simp_all [upd])
-    · have hjn' : j ≠ n := hjn
-      rcases hq : (t.items j).prev with _ | q
-      · simp [PTable.constructAt, PTable.setCell, PTable.setNextCell, PTable.readCell, PTable.writeCell, PTable.setPrev, PTable.setNext,
-            PTable.prevOf, PTable.setPrevOf, upd_same, upd_upd, Table.storedValue, hh, hq, upd_ne _ _ _ _ hj, upd_ne _ _ _ _ hjn', upd_ne _ _ _ _ hni]
-        try (funext x; by_cases e_jn : j = n <;> by_cases e_xj : x = j <;> by_cases e_xn : x = n <;> by_cases e_xi : x = item <;> simp_all [upd])
-      · have hqi : q ≠ item := fun e => H2 (by simp [PTable.prevOf, hq, e])
-        simp [PTable.constructAt, PTable.setCell, PTable.setNextCell, PTable.readCell, PTable.writeCell, PTable.setPrev, PTable.setNext,
-            PTable.prevOf, PTable.setPrevOf, upd_same, upd_upd, Table.storedValue, hh, hq, upd_ne _ _ _ _ hj, upd_ne _ _ _ _ hjn', upd_ne _ _ _ _ hqi, upd_ne _ _ _ _ hni]
-        try (funext x; by_cases e_jq : j = q <;> by_cases e_jn : j = n <;> by_cases e_qn : q = n <;> by_cases e_xj : x = j <;> by_cases e_xq : x = q <;> by_cases e_xn : x = n <;> by_cases e_xi : x = item <;> simp_all [upd])
-  case some.stl =>
-    have hni : n ≠ item := fun e => H3 (by rw [hh, e])
-    rcases hq : t.endPrev with _ | q
-    · simp [PTable.constructAt, PTable.setCell, PTable.setNextCell, PTable.readCell, PTable.writeCell, PTable.setPrev, PTable.setNext,
-          PTable.prevOf, PTable.setPrevOf, upd_same, upd_upd, Table.storedValue, hh, hq, upd_ne _ _ _ _ hni]
-      try (funext x; by_cases e_xn : x = n <;> by_cases e_xi : x = item <;> simp_all [upd])
-    · have hqi : q ≠ item := fun e => H2 (by simp [PTable.prevOf, hq, e])
-      simp [PTable.constructAt, PTable.setCell, PTable.setNextCell, PTable.readCell, PTable.writeCell, PTable.setPrev, PTable.setNext,
-          PTable.prevOf, PTable.setPrevOf, upd_same, upd_upd, Table.storedValue, hh, hq, upd_ne _ _ _ _ hqi, upd_ne _ _ _ _ hni]
-      try (funext x; by_cases e_qn : q = n <;> by_cases e_xq : x = q <;> by_cases e_xn : x = n <;> by_cases e_xi : x = item <;> simp_all [upd])
-
 /-- The translated `PoolMap::insert(position, key)` is the model's `insert` (for every `v`: the value is default-constructed) –
     `find`; an existing key is left alone; otherwise bucket array on first use, the head of the free list (after a new block
     was pushed on it when it was empty), construction, `freeItem = item->prev` read AFTER the construction, push to the front
@@ -651,29 +838,178 @@ theorem gen_pool_insert (h : Nat → Nat) (t : PTable) (pos : Nxt) (k v : Nat)
     (H3 : (t.withBuckets.allocItem Kind.pool).2.heads (h k % (t.withBuckets.allocItem Kind.pool).2.cap) ≠
       some (t.withBuckets.allocItem Kind.pool).1) :
     HashLink.PoolMap.insert h t pos k = (t.insert Kind.pool h pos k v).map (fun r => (r.1, Nxt.item r.2)) := by
-  unfold HashLink.PoolMap.insert PTable.insert
-  rw [gen_pool_find]
-  cases hf : t.find h k with
-  | none => rfl
-  | some r =>
-    cases r with
-    | some id => simp [findResult, iterOf]
-    | none =>
-      simp only [Option.map_some, findResult, iterOf, if_true]
-      unfold PTable.linkNew
-      rw [withBuckets_eq]
-      have e1 : (if t.allocated then t else t.allocBuckets) = t.withBuckets := rfl
-      rw [e1]
-      generalize t.withBuckets = t0 at H1 H2 H3 ⊢
-      unfold PTable.allocItem at H1 H2 H3 ⊢
-      cases hfree : t0.freeItem with
-      | some f =>
-        simp only [hfree, Option.isNone_some, Bool.false_eq_true, if_false] at H1 H2 H3 ⊢
-        rw [gen_pool_insert_link h t0 pos k v _ f H1 H2 H3]
+  first
+  | -- the shape of the current header: one body, the link half in `insert_k1`
+    have hlink : ∀ (t : PTable) (it : Nxt) (item : Nat), pos ≠ .item item → t.prevOf pos ≠ some item →
+        t.heads (h k % t.cap) ≠ some item →
+        HashLink.PoolMap.insert_k1 h t pos k it (some item) =
+          some ((({ t with freeItem := (t.items item).prev } : PTable).linkChain Kind.pool item (h k % t.cap) k v).linkOrder item pos, .item item) := by
+      intro t it item H1 H2 H3
+      unfold HashLink.PoolMap.insert_k1 PTable.linkChain PTable.linkOrder
+      rcases hh : t.heads (h k % t.cap) with _ | n <;> rcases pos with j | o
+      case none.item =>
+        have hj : j ≠ item := fun e => H1 (by rw [e])
+        rcases hq : (t.items j).prev with _ | q
+        · simp [PTable.constructAt, PTable.setCell, PTable.setNextCell, PTable.readCell, PTable.writeCell, PTable.setPrev, PTable.setNext,
+              PTable.prevOf, PTable.setPrevOf, upd_same, upd_upd, Table.storedValue, hh, hq, upd_ne _ _ _ _ hj]
+          try (funext x; by_cases e_xj : x = j <;> by_cases e_xi : x = item <;> simp_all [upd])
+        · have hqi : q ≠ item := fun e => H2 (by simp [PTable.prevOf, hq, e])
+          simp [PTable.constructAt, PTable.setCell, PTable.setNextCell, PTable.readCell, PTable.writeCell, PTable.setPrev, PTable.setNext,
+              PTable.prevOf, PTable.setPrevOf, upd_same, upd_upd, Table.storedValue, hh, hq, upd_ne _ _ _ _ hj, upd_ne _ _ _ _ hqi]
+          try (funext x; by_cases e_jq : j = q <;> by_cases e_xj : x = j <;> by_cases e_xq : x = q <;> by_cases e_xi : x = item <;> simp_all [upd])
+      case none.stl =>
+        rcases hq : t.endPrev with _ | q
+        · simp [PTable.constructAt, PTable.setCell, PTable.setNextCell, PTable.readCell, PTable.writeCell, PTable.setPrev, PTable.setNext,
+              PTable.prevOf, PTable.setPrevOf, upd_same, upd_upd, Table.storedValue, hh, hq, upd_same]
+          try (funext x; by_cases e_xi : x = item <;> simp_all [upd])
+        · have hqi : q ≠ item := fun e => H2 (by simp [PTable.prevOf, hq, e])
+          simp [PTable.constructAt, PTable.setCell, PTable.setNextCell, PTable.readCell, PTable.writeCell, PTable.setPrev, PTable.setNext,
+              PTable.prevOf, PTable.setPrevOf, upd_same, upd_upd, Table.storedValue, hh, hq, upd_ne _ _ _ _ hqi]
+          try (funext x; by_cases e_xq : x = q <;> by_cases e_xi : x = item <;> simp_all [upd])
+      case some.item =>
+        have hni : n ≠ item := fun e => H3 (by rw [hh, e])
+        have hj : j ≠ item := fun e => H1 (by rw [e])
+        by_cases hjn : j = n
+        · subst hjn
+          rcases hq : (t.items j).prev with _ | q
+          · simp [PTable.constructAt, PTable.setCell, PTable.setNextCell, PTable.readCell, PTable.writeCell, PTable.setPrev, PTable.setNext,
+                PTable.prevOf, PTable.setPrevOf, upd_same, upd_upd, Table.storedValue, hh, hq, upd_ne _ _ _ _ hj, upd_ne _ _ _ _ hni]
+            try (funext x; by_cases e_xj : x = j <;> by_cases e_xi : x = item <;> simp_all [upd])
+          · have hqi : q ≠ item := fun e => H2 (by simp [PTable.prevOf, hq, e])
+            simp [PTable.constructAt, PTable.setCell, PTable.setNextCell, PTable.readCell, PTable.writeCell, PTable.setPrev, PTable.setNext,
+                PTable.prevOf, PTable.setPrevOf, upd_same, upd_upd, Table.storedValue, hh, hq, upd_ne _ _ _ _ hj, upd_ne _ _ _ _ hqi, upd_ne _ _ _ _ hni]
+            try (funext x; by_cases e_jq : j = q <;> by_cases e_xj : x = j <;> by_cases e_xq : x = q <;> by_cases e_xi : x = item <;> simp_all [upd])
+        · have hjn' : j ≠ n := hjn
+          rcases hq : (t.items j).prev with _ | q
+          · simp [PTable.constructAt, PTable.setCell, PTable.setNextCell, PTable.readCell, PTable.writeCell, PTable.setPrev, PTable.setNext,
+                PTable.prevOf, PTable.setPrevOf, upd_same, upd_upd, Table.storedValue, hh, hq, upd_ne _ _ _ _ hj, upd_ne _ _ _ _ hjn', upd_ne _ _ _ _ hni]
+            try (funext x; by_cases e_jn : j = n <;> by_cases e_xj : x = j <;> by_cases e_xn : x = n <;> by_cases e_xi : x = item <;> simp_all [upd])
+          · have hqi : q ≠ item := fun e => H2 (by simp [PTable.prevOf, hq, e])
+            simp [PTable.constructAt, PTable.setCell, PTable.setNextCell, PTable.readCell, PTable.writeCell, PTable.setPrev, PTable.setNext,
+                PTable.prevOf, PTable.setPrevOf, upd_same, upd_upd, Table.storedValue, hh, hq, upd_ne _ _ _ _ hj, upd_ne _ _ _ _ hjn', upd_ne _ _ _ _ hqi, upd_ne _ _ _ _ hni]
+            try (funext x; by_cases e_jq : j = q <;> by_cases e_jn : j = n <;> by_cases e_qn : q = n <;> by_cases e_xj : x = j <;> by_cases e_xq : x = q <;> by_cases e_xn : x = n <;> by_cases e_xi : x = item <;> simp_all [upd])
+      case some.stl =>
+        have hni : n ≠ item := fun e => H3 (by rw [hh, e])
+        rcases hq : t.endPrev with _ | q
+        · simp [PTable.constructAt, PTable.setCell, PTable.setNextCell, PTable.readCell, PTable.writeCell, PTable.setPrev, PTable.setNext,
+              PTable.prevOf, PTable.setPrevOf, upd_same, upd_upd, Table.storedValue, hh, hq, upd_ne _ _ _ _ hni]
+          try (funext x; by_cases e_xn : x = n <;> by_cases e_xi : x = item <;> simp_all [upd])
+        · have hqi : q ≠ item := fun e => H2 (by simp [PTable.prevOf, hq, e])
+          simp [PTable.constructAt, PTable.setCell, PTable.setNextCell, PTable.readCell, PTable.writeCell, PTable.setPrev, PTable.setNext,
+              PTable.prevOf, PTable.setPrevOf, upd_same, upd_upd, Table.storedValue, hh, hq, upd_ne _ _ _ _ hqi, upd_ne _ _ _ _ hni]
+          try (funext x; by_cases e_qn : q = n <;> by_cases e_xq : x = q <;> by_cases e_xn : x = n <;> by_cases e_xi : x = item <;> simp_all [upd])
+    unfold HashLink.PoolMap.insert PTable.insert
+    rw [gen_pool_find]
+    cases hf : t.find h k with
+    | none => rfl
+    | some r =>
+      cases r with
+      | some id => simp [findResult, iterOf]
+      | none =>
+        simp only [Option.map_some, findResult, iterOf, if_true]
+        unfold PTable.linkNew
+        rw [withBuckets_eq]
+        have e1 : (if t.allocated then t else t.allocBuckets) = t.withBuckets := rfl
+        rw [e1]
+        generalize t.withBuckets = t0 at H1 H2 H3 ⊢
+        unfold PTable.allocItem at H1 H2 H3 ⊢
+        cases hfree : t0.freeItem with
+        | some f =>
+          simp only [hfree, Option.isNone_some, Bool.false_eq_true, if_false] at H1 H2 H3 ⊢
+          rw [hlink t0 _ f H1 H2 H3]
+        | none =>
+          have e2 : ({ t0 with freeItem := none } : PTable) = t0 := by cases t0; simp_all
+          simp only [hfree, Option.isNone_none, if_true, e2, PTable.newBlockAll, pushFree_freeItem] at H1 H2 H3 ⊢
+          exact (hlink _ _ _ H1 H2 H3).trans rfl
+  | -- allocation, chain link and order link in helpers `allocateItem`, `linkIntoChain`, `linkBefore`, the lookup through
+    -- `findInChain` (harmless change C02-h4)
+    have halloc : ∀ t0 : PTable,
+        HashLink.PoolMap.allocateItem h t0 = some ((t0.allocItem Kind.pool).2, some (t0.allocItem Kind.pool).1) := by
+      intro t0
+      unfold HashLink.PoolMap.allocateItem PTable.allocItem
+      cases hf : t0.freeItem with
+      | some f => simp [hf]
       | none =>
         have e2 : ({ t0 with freeItem := none } : PTable) = t0 := by cases t0; simp_all
-        simp only [hfree, Option.isNone_none, if_true, e2, PTable.newBlockAll, pushFree_freeItem] at H1 H2 H3 ⊢
-        exact (gen_pool_insert_link h _ pos k v _ _ H1 H2 H3).trans rfl
+        simp [hf, PTable.newBlockLocal, e2]
+    have hchain : ∀ (T : PTable) (item c : Nat),
+        HashLink.PoolMap.linkIntoChain h (T.constructAt item k 0) item (.bucket c) = some (T.linkChain Kind.pool item c k v) := by
+      intro T item c
+      unfold HashLink.PoolMap.linkIntoChain PTable.linkChain
+      cases hh : T.heads c <;>
+        simp [PTable.constructAt, PTable.setCell, PTable.setNextCell, PTable.readCell, PTable.writeCell, upd_same, upd_upd,
+          Table.storedValue, hh]
+    have hbefore : ∀ (T : PTable) (item : Nat), pos ≠ .item item → T.prevOf pos ≠ some item →
+        (HashLink.PoolMap.linkBefore h T item pos).map (fun t' => ({ t' with size := t'.size + 1 } : PTable)) =
+          some (T.linkOrder item pos) := by
+      intro T item H1 H2
+      unfold HashLink.PoolMap.linkBefore PTable.linkOrder
+      rcases pos with j | o
+      · have hj : j ≠ item := fun e => H1 (by rw [e])
+        rcases hq : (T.items j).prev with _ | q
+        · simp [PTable.setPrev, PTable.setNext, PTable.prevOf, PTable.setPrevOf, upd_same, upd_upd, upd_ne _ _ _ _ hj, hq]
+          try (funext x; by_cases e_xj : x = j <;> by_cases e_xi : x = item <;> simp_all [upd])
+        · have hqi : q ≠ item := fun e => H2 (by simp [PTable.prevOf, hq, e])
+          simp [PTable.setPrev, PTable.setNext, PTable.prevOf, PTable.setPrevOf, upd_same, upd_upd, upd_ne _ _ _ _ hj, upd_ne _ _ _ _ hqi, hq]
+          try (funext x; by_cases e_jq : j = q <;> by_cases e_xj : x = j <;> by_cases e_xq : x = q <;> by_cases e_xi : x = item <;> simp_all [upd])
+      · rcases hq : T.endPrev with _ | q
+        · simp [PTable.setPrev, PTable.setNext, PTable.prevOf, PTable.setPrevOf, upd_same, upd_upd, hq]
+          try (funext x; by_cases e_xi : x = item <;> simp_all [upd])
+        · have hqi : q ≠ item := fun e => H2 (by simp [PTable.prevOf, hq, e])
+          simp [PTable.setPrev, PTable.setNext, PTable.prevOf, PTable.setPrevOf, upd_same, upd_upd, upd_ne _ _ _ _ hqi, hq]
+          try (funext x; by_cases e_xq : x = q <;> by_cases e_xi : x = item <;> simp_all [upd])
+    have hk1 : ∀ t0 : PTable, pos ≠ .item (t0.allocItem Kind.pool).1 →
+        (t0.allocItem Kind.pool).2.prevOf pos ≠ some (t0.allocItem Kind.pool).1 →
+        HashLink.PoolMap.insert_k1 h t0 pos k (h k) =
+          some ((((t0.allocItem Kind.pool).2.linkChain Kind.pool (t0.allocItem Kind.pool).1 (h k % (t0.allocItem Kind.pool).2.cap) k v).linkOrder
+            (t0.allocItem Kind.pool).1 pos), .item (t0.allocItem Kind.pool).1) := by
+      intro t0 H1 H2
+      unfold HashLink.PoolMap.insert_k1
+      rw [halloc]
+      generalize (t0.allocItem Kind.pool) = a at H1 H2 ⊢
+      have hcap : (a.2.constructAt a.1 k 0).cap = a.2.cap := rfl
+      simp only [hcap, hchain]
+      have hb := hbefore (a.2.linkChain Kind.pool a.1 (h k % a.2.cap) k v) a.1 H1 (by rw [linkChain_prevOf]; exact H2)
+      cases hlb : HashLink.PoolMap.linkBefore h (a.2.linkChain Kind.pool a.1 (h k % a.2.cap) k v) a.1 pos with
+      | none => rw [hlb] at hb; simp at hb
+      | some t' =>
+        rw [hlb] at hb
+        simp only [Option.map_some, Option.some.injEq] at hb
+        simp only [hb]
+    have hfc : ∀ v' : Option Nat,
+        HashLink.PoolMap.findInChain h t v' k = (PTable.walk t.items k t.size v').map (fun r => (t, r)) := by
+      have hl1 : ∀ (fuel : Nat) (v : Option Nat),
+          HashLink.PoolMap.findInChain_loop1 h fuel t v k = (PTable.walk t.items k fuel v).map (fun r => (t, r)) := by
+        intro fuel v
+        induction fuel generalizing v with
+        | zero => cases v <;> simp [HashLink.PoolMap.findInChain_loop1, PTable.walk]
+        | succ f ih =>
+          cases v with
+          | none => simp [HashLink.PoolMap.findInChain_loop1, PTable.walk]
+          | some a =>
+            unfold HashLink.PoolMap.findInChain_loop1
+            simp only [PTable.walk]
+            by_cases hk : (t.items a).key = k
+            · simp [hk]
+            · simp only [hk, if_false]; exact ih _
+      intro v; unfold HashLink.PoolMap.findInChain; exact hl1 _ _
+    unfold HashLink.PoolMap.insert PTable.insert PTable.find PTable.linkNew
+    rw [withBuckets_eq]
+    by_cases ha : t.allocated = true
+    · have hw : t.withBuckets = t := by simp [PTable.withBuckets, ha]
+      rw [hw] at H1 H2 ⊢
+      simp only [ha, if_true, hfc]
+      cases PTable.walk t.items k t.size (t.heads (h k % t.cap)) with
+      | none => rfl
+      | some r =>
+        cases r with
+        | some id => simp [ha]
+        | none => simp only [Option.map_some]; rw [hk1 t H1 H2]
+    · have ha' : t.allocated = false := by simpa using ha
+      simp only [ha', Bool.false_eq_true, if_false]
+      have hwb : t.allocBuckets = t.withBuckets := by simp [PTable.withBuckets, ha']
+      rw [hwb, hk1 t.withBuckets H1 H2]
+      rfl
 
 /-- … hence on every table that represents a model state, for every position `p ≤ size` (`size` = `end()`). -/
 theorem gen_pool_insert_rel {h : Nat → Nat} {pt : PTable} {t : Table} (hr : Rel pt t) (hi : t.Inv h) (p k v : Nat) :
